@@ -29,6 +29,7 @@ THEOREMS = [
     ("EG.props.C08", "C08_sound_trials_decide"),
     ("EG.props.C08", "C08_sound_stale_results_no_effect"),
     ("EG.props.C08", "C08_checker_sound_nonvacuous"),
+    ("EG.props.C08", "C08_burst_fold"),
     ("EG.props.C08", "C08_wrapper_one_record_per_call"),
     ("EG.props.C08", "C08_wrapper_context_independent"),
     ("EG.props.C08", "C08_instances_independent"),
@@ -63,6 +64,8 @@ RULE = ("cases: random policies (thresholds 1..100, count/time window 1..12, min
         "reached OPEN(+1) reached HALF_OPEN(+2) stale record(+4) time-based(+8) recovery to CLOSED(+16); "
         "groups wrap (resilience wrapper: handler nil/error/panic) and pool (Proxy: 2xx/transport error/failure code) likewise; "
         "group lin (thorough, -race): 2-5 goroutines, <= 10 stamped operations, linearization search; "
+        "group burst (quick): time-based window receiving >= 65536 results within one second (folded arithmetically in the model), "
+        "then the clock passes the window and failures follow; wrap handlers also end by panic(nil) and runtime.Goexit; "
         "group race (quick): deterministic forced overlap - operation A parked at its clock reading inside the critical section, "
         "B issued meanwhile (two trial results at the closing/reopening transition, acquire vs transition, record vs max-wait reopen, random); "
         "distinct = distinct (group, input) hashes among non-trivial cases")
